@@ -27,6 +27,11 @@ PROFILES += [
     # two selections over three common workers, with Same/DistinctWorkers
     S.profile(min_tasks=2, max_tasks=3, horizon=(2, 5), p_no_horizon=5, p_resources=100, n_workers=(3, 3), p_select=100, p_cumulative=0, task_constraints=(0, 1), optional_rules=(0, 0),
               resource_constraints=(1, 1), focus=["SameWorkers", "DistinctWorkers"], p_optional=20, p_work_amount=5),
+    # several WorkLoad / ResourceUnavailable constraints sharing one window on different resources (state shared between
+    # two constraint objects, e.g. z3 constant names derived from the window)
+    S.profile(min_tasks=2, max_tasks=3, horizon=(3, 6), p_no_horizon=5, p_resources=100, n_workers=(2, 3), p_select=10, p_cumulative=10, task_constraints=(0, 1), optional_rules=(0, 0),
+              resource_constraints=(2, 3), focus=["WorkLoad"], p_optional=20, p_work_amount=5, p_reuse_window=80,
+              exclude=("SameWorkers", "DistinctWorkers", "ResourceNonDelay", "ResourceTasksDistance", "ResourceInterrupted", "ResourcePeriodicallyInterrupted", "ResourcePeriodicallyUnavailable")),
     # optional tasks with delay_in / early_out under periodic and sorting constraints; unselected workers (parking instants)
     S.profile(min_tasks=2, max_tasks=3, horizon=(3, 6), p_no_horizon=5, p_resources=100, n_workers=(2, 3), p_select=60, p_cumulative=10, p_delay=60, task_constraints=(0, 1), optional_rules=(0, 0),
               resource_constraints=(1, 2), focus=["ResourceNonDelay", "ResourceTasksDistance", "ResourcePeriodicallyUnavailable", "ResourcePeriodicallyInterrupted"], p_optional=60, p_work_amount=5, p_interleave=15),
@@ -63,7 +68,7 @@ def prop(ctx, case):
 
 
 def run_shard(ctx):
-    n = {"quick": 55, "thorough": 600}[ctx.tier]
+    n = {"quick": 45, "thorough": 500}[ctx.tier]
     for prof in PROFILES:
         run_hypothesis(ctx, S.spec_with_pins(prof, n_sets=3, n_cands=10), prop, max_examples=n)
 
